@@ -34,6 +34,9 @@ type WireHello struct {
 	HasECH              bool
 	ALPSCodepoints      []uint16 // 17513 / 17613 when present
 	ALPSProtocols       []string
+	HasSessionTicket    bool   // session_ticket extension present
+	SessionTicket       []byte // its body (non-empty = a TLS 1.2 session is offered)
+	HasEMS              bool   // extended_master_secret extension present
 }
 
 type rd struct {
@@ -193,6 +196,12 @@ func ParseClientHello(msg []byte) (*WireHello, error) {
 			}
 		case 0xfe0d:
 			h.HasECH = true
+		case 35:
+			h.HasSessionTicket = true
+			h.SessionTicket = append([]byte{}, body.b...)
+			body.b = nil
+		case 23:
+			h.HasEMS = true
 		}
 		if body.err {
 			return nil, errors.New("malformed extension body")
@@ -278,4 +287,33 @@ func PlainAlerts(stream []byte) [][2]uint8 {
 		}
 	}
 	return out
+}
+
+// ServerHelloFromStream parses the first plaintext handshake message of a server's byte stream
+// (ServerHello or HelloRetryRequest): legacy_version, random, session id, cipher suite. ok=false if the
+// stream does not start with one (e.g. the server sent an alert).
+func ServerHelloFromStream(stream []byte) (vers uint16, random, sid []byte, suite uint16, ok bool) {
+	var hsbuf []byte
+	for _, r := range SplitRecords(stream) {
+		if r.Type != 22 {
+			break
+		}
+		hsbuf = append(hsbuf, r.Body...)
+		if len(hsbuf) >= 4 {
+			n := int(hsbuf[1])<<16 | int(hsbuf[2])<<8 | int(hsbuf[3])
+			if len(hsbuf) >= 4+n {
+				hsbuf = hsbuf[:4+n]
+				break
+			}
+		}
+	}
+	if len(hsbuf) < 4+2+32+1 || hsbuf[0] != 2 {
+		return 0, nil, nil, 0, false
+	}
+	p := &rd{b: hsbuf[4:]}
+	vers = p.u16()
+	random = append([]byte(nil), p.take(32)...)
+	sid = append([]byte{}, p.vec8().b...)
+	suite = p.u16()
+	return vers, random, sid, suite, !p.err
 }
